@@ -30,6 +30,9 @@ var bigEndianArch = map[string]bool{"mips": true, "mips64": true, "ppc64": true,
 
 func runC04(c *Ctx, r *Report) {
 	l := c.L
+	defer c04r13(c, r)
+	defer c04r14(c, r)
+	defer c01r3(c, r) // a cached chunk result is only served to the pattern it was computed for
 	// ---------------- R1 ----------------
 	r.rule("C04-R1", "H (constant inequalities) + B", "P1",
 		"len(Result.points) >= the longest criteria list parseTiebreak accepts and every []criterion literal; buildResult stores criterion idx at points[len-1-idx]; sortCriteria has a single writer (Run)",
